@@ -320,6 +320,20 @@ pub fn run_c13(ctx: &Ctx, index: u64, cov: &mut Cov) -> Option<Violation> {
         }
         cov.bump("reserve_requests_above_1000_nodes");
     }
+    if index % 13 == 3 && a.arena.count() > 0 {
+        // a request that cannot be satisfied: the call must not return as if it had been
+        for k in [usize::MAX - rng.below(a.arena.count() + 1), usize::MAX / 2 + rng.below(1000), (isize::MAX as usize) / 16] {
+            let mut c = a.arena.clone();
+            let r = guarded(|| c.reserve(k));
+            if r.is_ok() && (c.capacity() < c.count().saturating_add(k)) {
+                return v(ctx, "reserve-huge-returned", format!("reserve({}) returned normally with count() = {} and capacity() = {}", k, c.count(), c.capacity()), &workload, ops.len(), &ops);
+            }
+            if c != a.arena {
+                return v(ctx, "reserve-huge-observable", format!("a refused reserve({}) changed the arena", k), &workload, ops.len(), &ops);
+            }
+        }
+        cov.bump("unsatisfiable_reserve_requests");
+    }
     // (c) clear
     let cap = a.arena.capacity();
     let had_free = !a.model.avail.is_empty();
@@ -505,6 +519,7 @@ impl BatteryHook {
             }
             Outcome::Ret(Ret::Id(id)) => {
                 d.s(&id.to_string());
+                d.s(&format!("{:>5}|{:<4}|{:^7}|{:05}|{:+}|{:#}", id, id, id, id, id, id));
                 d.u(usize::from(*id) as u64);
                 d.s(&format!("{:?}", id));
             }
@@ -517,6 +532,9 @@ impl BatteryHook {
         for (i, n) in a.iter().enumerate() {
             d.u(n.is_removed() as u64);
             d.s(&format!("{}", n));
+            if i % 5 == 0 {
+                d.s(&format!("{:>6}|{:04}|{:+}", n, n, n));
+            }
             if n.is_removed() {
                 continue;
             }
@@ -686,6 +704,12 @@ pub fn read_battery<P: Payload + std::fmt::Display>(a: &Arena<P>, yield_seed: u6
                 use std::fmt::Write as _;
                 let mut w = mon::LimitedWriter { left: r.below(48) };
                 let _ = write!(w, "{:#?}", id.debug_pretty_print(a));
+            }
+            if yield_seed != 0 && r.chance(1, 3) {
+                // this reader dies inside a dump (its payload's Display panics); nobody else may notice
+                crate::payload::set_display_panics(true);
+                let _ = guarded(|| format!("{}", id.debug_pretty_print(a)));
+                crate::payload::set_display_panics(false);
             }
             d.s(&format!("{}", id.debug_pretty_print(a)));
             d.s(&format!("{:#?}", id.debug_pretty_print(a)));
